@@ -26,14 +26,14 @@ print("### 8.5 Independent seeded changes (`seeded/`, `tools/seeded.py`)\n")
 print("Written by fresh sub-agents that were given only the text of one property and a scratch worktree, never anything from `/verif`.")
 print("Each was confirmed by me in a new scratch worktree of `/repo` HEAD: patch applies, `demo.py` exits 1 with it and 0 without it, the")
 print("repository's unedited suite passes with it (135 passed); then all twenty quick tiers were pointed at the patched tree.\n")
-print("| change | property | needs in order to manifest | own check | other checks that fire |\n|---|---|---|---|---|")
+print("| change | property | needs in order to manifest | own check when the change arrived | own check now | other checks that fire |\n|---|---|---|---|---|---|")
+W = {0: "missed", 1: "caught", 2: "inconclusive", None: "-"}
 for mf in sorted(glob.glob(str(V / "seeded" / "*" / "meta.json"))):
     x = json.load(open(mf)); ch = x.get("checks", {})
     own = ch.get(x["property"], {}).get("exit")
     others = ", ".join(k for k, v in sorted(ch.items()) if v["exit"] == 1 and k != x["property"]) or "-"
     conf = "" if x.get("confirmed") else " (NOT CONFIRMED)"
     bf = x.get("own_check_before_strengthening")
-    note = ""
-    if x.get("strengthened"):
-        note = " (after strengthening: " + x["strengthened"] + (f"; the earlier version exited {bf['exit']}" if bf else "") + ")"
-    print(f"| {x['name']}{conf} | {x['property']} | {x['needs_to_manifest']} | {'caught' if own == 1 else ('missed' if own == 0 else 'not run')}{note} | {others} |")
+    before = W.get(bf.get("exit"), str(bf.get("exit"))) if isinstance(bf, dict) else (str(bf)[:40] if bf else "-")
+    note = (" (" + x["strengthened"] + ")") if x.get("strengthened") else ""
+    print(f"| {x['name']}{conf} | {x['property']} | {x['needs_to_manifest']} | {before} | {W.get(own, str(own))}{note} | {others} |")
